@@ -2,6 +2,7 @@
 From Coq Require Import String ZArith List Bool.
 From FcpV Require Import Base.Bits Schema.Types Wire.Wire Wire.WireProofs Py.PySerde Py.PySerdeProofs.
 From FcpV Require Import Py.BufferLib gen.PyBuffer Py.BufferProofs Corr.Serde Corr.SerdeCapProofs.
+From FcpV Require Import Py.DispatchLib Py.DispatchDefs Py.DispatchProofs Py.DispatchExample.
 Import ListNotations.
 Open Scope Z_scope.
 
@@ -79,3 +80,29 @@ Theorem correspondence_decoder_is_the_model :
   forall t, dyn_positive t = true -> forall bs, gdec_capped py_sdec t bs = py_dec t bs.
 Proof. exact (gdec_capped_is_gdec py_sdec). Qed.
 Print Assumptions correspondence_decoder_is_the_model.
+
+(* ---- serde.py END TO END (every function of the file translated from the source on every run): the translated decode() raises
+   ValueError (the buffer's "buffer overrun") on every strict byte prefix of the encoding of every in-range value, and on ANY
+   input it returns exactly what the model decoder returns - a value only when the model found every announced bit *)
+Theorem source_prefix_raises :
+  forall sc, NoDup (map sname (structs sc)) ->
+  forall name t v bytes k fuel,
+    resolve sc name = Some t -> uniq t -> (depth t <= S fuel)%nat -> has_type t v = true ->
+    py_encode sc name v = Some bytes -> (k < length bytes)%nat ->
+    PyDispatch.py_decode fuel sc name (firstn k bytes) = PRaise PyValueError.
+Proof. exact translated_prefix_raises. Qed.
+Print Assumptions source_prefix_raises.
+
+Theorem source_decode_is_the_model_on_any_input :
+  forall sc, NoDup (map sname (structs sc)) ->
+  forall name t data fuel,
+    resolve sc name = Some t -> uniq t -> (depth t <= S fuel)%nat -> Forall byte_ok data ->
+    exists o, py_decode sc name data = Some o /\
+              PyDispatch.py_decode fuel sc name data = match o with Ok v => POk (embed t v) | Raise e => PRaise (exn_py e) end.
+Proof. exact translated_decode_is_model. Qed.
+Print Assumptions source_decode_is_the_model_on_any_input.
+
+Example c16_source_nonvacuous :
+  NoDup (map sname (structs ex_sc)) /\ resolve ex_sc "M" = Some ex_t /\ uniq ex_t /\ repr ex_t ex_v = true /\
+  (depth ex_t <= S 8)%nat /\ has_type_gen py_okS ex_t ex_v = true.
+Proof. exact hypotheses_nonvacuous. Qed.
